@@ -252,3 +252,75 @@ impl crate::drive::Driveable for MerkleEng {
         Some(json!({"c": "write", "v": v, "on": pick}))
     }
 }
+
+// ---------------------------------------------------------------------------
+// Supplementary width probe.  NOT bound to the TLA+ specification: a node with w children needs w + 2 writes, far more
+// than TLC enumerates (DESIGN 9).  One base node, w concurrent children of it, one node joining all of them.  For every
+// choice k of the child that is still missing when the join arrives (op path and merge path): the join must stay
+// invisible (heads = the w - 1 children present), and become the only head once child k arrives -- the declarative
+// reading of C15 (visible = causally complete, heads = visible nodes without a visible parent) on this one shape.
+// ---------------------------------------------------------------------------
+pub fn wide_node_probe(w: usize) -> Value {
+    let r = crate::core::catch(|| {
+        let author: S = MerkleReg::new();
+        let base = author.write(vec![0u8, 0u8], BTreeSet::new());
+        let kids: Vec<O> = (0..w).map(|i| author.write(vec![1u8, i as u8], std::iter::once(base.hash()).collect())).collect();
+        let join = author.write(vec![2u8, 0u8], kids.iter().map(|k| k.hash()).collect());
+        let heads = |s: &S| -> BTreeSet<Hash> { s.read().hashes() };
+        for k in 0..w {
+            let expect_before: BTreeSet<Hash> = kids.iter().enumerate().filter(|(i, _)| *i != k).map(|(_, n)| n.hash()).collect();
+            let expect_after: BTreeSet<Hash> = std::iter::once(join.hash()).collect();
+            // op path: everything but child k, then the join, then child k
+            let mut a: S = MerkleReg::new();
+            a.apply(base.clone());
+            for (i, n) in kids.iter().enumerate() {
+                if i != k {
+                    a.apply(n.clone());
+                }
+            }
+            a.apply(join.clone());
+            let mut props: BTreeSet<&str> = BTreeSet::new();
+            let mut what: Vec<String> = vec![];
+            if heads(&a) != expect_before {
+                props.extend(["C15", "C08"]);
+                what.push(format!("op path: a node whose child is missing is visible or hides a head ({} heads, expected {})", heads(&a).len(), expect_before.len()));
+            }
+            // merge path: a replica that holds child k only (and the base) merges the state above, in both directions
+            let mut b: S = MerkleReg::new();
+            b.apply(base.clone());
+            b.apply(kids[k].clone());
+            let mut m = b.clone();
+            m.merge(a.clone());
+            let mut m2 = a.clone();
+            m2.merge(b.clone());
+            // the reference: every op applied in causal order
+            let mut full: S = MerkleReg::new();
+            full.apply(base.clone());
+            for n in kids.iter() {
+                full.apply(n.clone());
+            }
+            full.apply(join.clone());
+            a.apply(kids[k].clone());
+            if heads(&a) != expect_after {
+                props.extend(["C15", "C08"]);
+                what.push(format!("op path: the parked node is not the only head after its last child arrived ({} heads)", heads(&a).len()));
+            }
+            if heads(&m) != expect_after || heads(&m2) != expect_after || m != full || m2 != full {
+                props.extend(["C15", "C03", "C02"]);
+                what.push(format!("merge path: merging the two halves differs from applying all ops ({} / {} heads, expected 1)", heads(&m).len(), heads(&m2).len()));
+            }
+            if heads(&full) != expect_after {
+                props.extend(["C15", "C01"]);
+                what.push("all ops in causal order: the join is not the only head".to_string());
+            }
+            if !props.is_empty() {
+                return json!({"ok": false, "missing_child": k, "width": w, "what": what, "props": props.into_iter().collect::<Vec<&str>>()});
+            }
+        }
+        json!({"ok": true, "width": w, "cases": w})
+    });
+    match r {
+        Ok(v) => v,
+        Err(e) => json!({"ok": false, "what": format!("PANIC {}", e), "props": ["C15"]}),
+    }
+}
